@@ -56,7 +56,9 @@ var extraKeys = []string{"agents", "retry", "timeout_in_minutes", "soft_fail", "
 	"notify", "priority", "skip", "allow_dependency_failure", "fields", "prompt", "build", "async", "x-custom", "zz_unknown"}
 
 var AdversarialKeys = []string{"", "<<", "1", "true", "yes", "~", "0x1f", "Key", "KEY", "Label", "steps ", "name", "id", "identifier", "commands", "command", "null", "3.5", "a b", "é",
-	"True", "TRUE", "False", "FALSE", "Null", "NULL", "Yes", "ON", "Off"}
+	"True", "TRUE", "False", "FALSE", "Null", "NULL", "Yes", "ON", "Off",
+	// integer spellings at and beyond the int64 boundary (a render style writes some of them unquoted, as integer keys)
+	"9223372036854775807", "9223372036854775808", "18446744073709551615", "0xFFFFFFFFFFFFFFFF", "18446744073709551616", "010", "0o17"}
 
 // ControlKeys: keys carrying control characters and non-printable runes (legal in quoted YAML / JSON escapes);
 // only for properties whose domain is every byte string.
